@@ -259,6 +259,10 @@ func (u *PacketUnderlay) RunEventLoop(ctx context.Context) error {
 				}
 				continue
 			}
+			if !u.segmentMatchesSessionUser(session.(*Session), seg) {
+				log.Debugf("%v dropped segment from peer %v: session %d belongs to another user", u, addr, das.sessionID)
+				continue
+			}
 			u.deliverSegmentToSession(session.(*Session), seg)
 		} else {
 			log.Debugf("Ignore unknown protocol %d", seg.metadata.Protocol())
@@ -335,10 +339,27 @@ func (u *PacketUnderlay) onCloseSession(seg *segment) error {
 		return nil
 	}
 	s := session.(*Session)
+	if !u.segmentMatchesSessionUser(s, seg) {
+		return fmt.Errorf("session %d belongs to another user", sessionID)
+	}
 	if !u.deliverSegmentToSession(s, seg) && log.IsLevelEnabled(log.TraceLevel) {
 		log.Tracef("%v ignored closeSessionRequest or closeSessionResponse segment for closed session %d", u, sessionID)
 	}
 	return nil
+}
+
+// segmentMatchesSessionUser reports whether the segment was authenticated
+// with the credential of the user that owns the session. A registered user
+// must not be able to inject segments into the session of another user.
+func (u *PacketUnderlay) segmentMatchesSessionUser(s *Session, seg *segment) bool {
+	if u.isClient || seg.block == nil {
+		return true
+	}
+	sessionBlock := s.block.Load()
+	if sessionBlock == nil {
+		return true
+	}
+	return (*sessionBlock).BlockContext().UserName == seg.block.BlockContext().UserName
 }
 
 func (u *PacketUnderlay) readOneSegment() (*segment, net.Addr, error) {
